@@ -98,6 +98,16 @@ class UnitPrior2D(_Box):
         return -0.5 * ((x["x0"] - 0.5) ** 2 + (x["x1"] + 0.5) ** 2) / 0.25
 
 
+class GaussianOffCentre2D(_Box):
+    """Gaussian likelihood peaked away from the centre of the prior box (an untrained / identity flow does not
+    cover it by accident)."""
+
+    ndim = 2
+
+    def log_likelihood(self, x):
+        return -0.5 * ((x["x0"] - 2.5) ** 2 + (x["x1"] - 2.5) ** 2) / 0.49 - np.log(2 * np.pi * 0.49)
+
+
 class Gaussian3D(_Box):
     ndim = 3
 
@@ -325,6 +335,7 @@ class Angle2D(Model):
 MODELS = {
     "angle2": Angle2D,
     "gauss2": Gaussian2D,
+    "gaussoff2": GaussianOffCentre2D,
     "uprior2": UnitPrior2D,
     "offlow2": OffsetLow2D,
     "offvlow2": OffsetVeryLow2D,
